@@ -176,10 +176,19 @@ def run(ctx):
             runs.append(scenario_args(prim, init, progs) + ["--seed", str(ctx.seed * 7907 + 100 * j + i), "--spur", "0" if i % 3 else "0.1",
                                                             "--tout", ["0.2", "0.4", "0.6"][i % 3]])
     check_runs(ctx, binary, runs, "directed")
+    # systematically: every schedule with at most 2 (thorough: 3) preemptions of the scenario and directed programs
+    runs = []
+    for prim, init, progs in [SCENARIOS[n] for n in names] + DIRECTED:
+        if any(op == "msetloop" for p in progs for op in p):
+            continue                                   # an unbounded loop: left to the random and graph schedules
+        base = scenario_args(prim, init, progs) + ["--seed", "1", "--spur", "0"]
+        runs += vlib.preemption_bounded_schedules(binary, base, bound=2 if ctx.quick else 3, cap=250 if ctx.quick else 4000)
+    ctx.notes["preemption_bounded_schedules"] = len(runs)
+    check_runs(ctx, binary, runs, "pb")
     ctx.assumptions.append("sequential consistency at the granularity of the shim's scheduling points")
     return vlib.finish(ctx, "model_checking",
                        "TLC state graphs of 8 scenario programs over the pthread model -> schedules replayed on the real primitives "
-                       "through the cooperative scheduler + random terminating programs under random schedules with spurious wake-ups "
+                       "through the cooperative scheduler + every schedule with <= 2-3 preemptions of the scenario programs + random terminating programs under random schedules with spurious wake-ups "
                        "and time-outs; call/return events validated by TLC against PrimsAbs; scheduler verdicts deadlock/budget/oracle "
                        "are violations; distinct = distinct (program, schedule) pairs")
 
